@@ -46,6 +46,13 @@ func genLeaseScript(rng *rand.Rand, idx int) leaseScript {
 			st.SleepMs = 300 + rng.Intn(1001)
 		}
 		x := rng.Intn(10)
+		if held && rng.Intn(5) == 0 {
+			// the data stored under the very name of the lease changes (acme.ChordStorage locks
+			// and stores under one key): no business of the grant
+			st.Op = []string{"put", "delete", "put-delete", "append-remove"}[rng.Intn(4)]
+			sc.Steps = append(sc.Steps, st)
+			continue
+		}
 		switch {
 		case !held || x < 4:
 			st.Op = "acquire"
@@ -87,6 +94,7 @@ type leaseRun struct {
 	staleUse       bool
 	invalidTTL     bool
 	tokenNotExpiry int
+	dataOps        int // data operations on the key that names the lease
 }
 
 // runLeaseScript executes the script on one fresh store with its own model.
@@ -135,6 +143,30 @@ func runLeaseScript(kv chord.KVProvider, backend string, sc leaseScript) (r leas
 		var err error
 		var tok, out uint64
 		switch st.Op {
+		case "put", "delete", "put-delete", "append-remove":
+			var derr error
+			switch st.Op {
+			case "put":
+				derr = kv.Put(bg, key, []byte("data"))
+			case "delete":
+				derr = kv.Delete(bg, key)
+			case "put-delete":
+				if derr = kv.Put(bg, key, []byte("data")); derr == nil {
+					derr = kv.Delete(bg, key)
+				}
+			default:
+				if derr = kv.PrefixAppend(bg, key, []byte("child")); derr == nil {
+					derr = kv.PrefixRemove(bg, key, []byte("child"))
+				}
+			}
+			o.Result, o.Allowed = "data:"+st.Op+":"+errName(derr), "lease unchanged"
+			r.obs = append(r.obs, o)
+			r.dataOps++
+			if derr != nil {
+				r.fail = &mismatch{Sig: backend + "-data-operation-on-lease-key-failed", Text: fmt.Sprintf("%s step %d %s on the key that also names a lease returned %v", backend, i, st.Op, derr)}
+				return
+			}
+			continue
 		case "acquire":
 			o.T0 = time.Now().UnixNano()
 			out, err = kv.Acquire(bg, key, ttl)
@@ -215,7 +247,7 @@ func runLeaseScript(kv chord.KVProvider, backend string, sc leaseScript) (r leas
 func TestC19S(t *testing.T) {
 	const id = "C19S"
 	rec := ev.New(t, id)
-	rec.Rule("seeded-PRNG scripts of 4..8 steps by 2..4 holders on one lease key: acquire / renew / release with TTL ∈ {0, 999 ms, 1 s, 1.5 s, 2 s}, the holder's own latest token, an older issued token or a forged (never issued, non-zero) token, sleeps of 0 or 0.3..1.3 s between steps; the same script runs on a fresh memory, aof and sqlite store, 96 cases in flight. Oracle: interval-tolerant timed lease model (kvmodel.Lease, ε = 2 ms): free or expired → acquire succeeds, held → ErrKVLeaseConflict; renew succeeds only with the current unexpired token, release only with the current token, otherwise ErrKVLeaseExpired; TTL < 1 s → ErrKVLeaseInvalidTTL; a failed call leaves the model unchanged and the following steps observe that. Non-trivial: a grant definitely expired and its token (or the lease) was used afterwards, or a forged token was presented. Distinct = distinct scripts.")
+	rec.Rule("seeded-PRNG scripts of 4..8 steps by 2..4 holders on one lease key: acquire / renew / release with TTL ∈ {0, 999 ms, 1 s, 1.5 s, 2 s}, the holder's own latest token, an older issued token or a forged (never issued, non-zero) token, sleeps of 0 or 0.3..1.3 s between steps; while a grant may be live one step in five is a data operation on the very key that names the lease (put / delete / put+delete / prefix append+remove), which must succeed and leave the grant as it is; the same script runs on a fresh memory, aof and sqlite store, 96 cases in flight. Oracle: interval-tolerant timed lease model (kvmodel.Lease, ε = 2 ms): free or expired → acquire succeeds, held → ErrKVLeaseConflict; renew succeeds only with the current unexpired token, release only with the current token, otherwise ErrKVLeaseExpired; TTL < 1 s → ErrKVLeaseInvalidTTL; a failed call leaves the model unchanged and the following steps observe that. Non-trivial: a grant definitely expired and its token (or the lease) was used afterwards, or a forged token was presented. Distinct = distinct scripts.")
 	rec.Assume("the wall clock does not jump by more than 2 ms during a case",
 		"a grant may last the TTL truncated to whole seconds (durationGuard); when the returned token is an instant within [t0+trunc(ttl), t1+ttl] it is taken as the exact expiry (both implementations issue token = expiry), otherwise the whole window is kept as uncertainty",
 		"token 0 is never presented; outcomes of calls overlapping the expiry instant are accepted either way (counted as boundary)")
@@ -304,6 +336,9 @@ func TestC19S(t *testing.T) {
 			}
 			if r.invalidTTL {
 				labels = append(labels, "sub-second-ttl")
+			}
+			if r.dataOps > 0 {
+				labels = append(labels, "data-operation-on-lease-key")
 			}
 			rec.Add("boundary_steps_accepted_either_way", int64(r.boundary))
 			rec.Add("grants_whose_token_is_not_an_expiry_instant", int64(r.tokenNotExpiry))
